@@ -229,6 +229,11 @@ def injectors():
         add("path-shape", "rule", dict(rule0, path=p))
     for d in (3, True, {"description": 3}, {"description": [1, 2]}, {"examples": "x"}, {"examples": [None]}, [1, 2], {"description": None}):
         add("doc-shape", "rule", dict(rule0, doc=d))
+    # entries of a schema's rule list that are not mappings (and a rule list that is a mapping); every text is read
+    # from a string and from a file
+    for rl in ([[1, 2]], ["x"], [3], [None], [rule0, "x"], [rule0, None, rule0], [[rule0]], dict(rule0), {"a": rule0}, "rules", 3, [True], [2.5, rule0], [rule0, []]):
+        out.append({"inj": "rules-entry-shape", "entry": "yaml", "spec": {"rules": rl}, "definite": False})
+        out.append({"inj": "rules-entry-shape", "entry": "yaml", "spec": {"rules": rl, "x": 1}, "definite": False})
     return out
 
 
@@ -432,9 +437,23 @@ def run(case, ctx):
         arg = text
     elif entry == "parts" and type(spec) is not list:
         arg = [spec]
-    with warnings.catch_warnings():
-        warnings.simplefilter("ignore")
-        ok, res = call(parser(entry), _copy.deepcopy(arg) if entry != "yaml" else arg)
+    if entry == "yaml" and len(arg) % 2 == 0:
+        # the same text read from a file on disk
+        import os
+        import valida
+        fpath = os.path.join(os.environ.get("VF_WORK", "/verif/.work"), f"c19-{os.getpid()}.yaml")
+        os.makedirs(os.path.dirname(fpath), exist_ok=True)
+        with open(fpath, "w") as fh:
+            fh.write(arg)
+        with warnings.catch_warnings():
+            warnings.simplefilter("ignore")
+            ok, res = call(valida.Schema.from_yaml_file, fpath)
+        os.unlink(fpath)
+        ctx.count("entry:yaml-file")
+    else:
+        with warnings.catch_warnings():
+            warnings.simplefilter("ignore")
+            ok, res = call(parser(entry), _copy.deepcopy(arg) if entry != "yaml" else arg)
     ctx.count("injected:" + inj)
     ctx.count("entry:" + entry)
     if ok:
